@@ -486,8 +486,30 @@ func (x *Exec) applyContract(st *State, fn *ssa.Function, spec *contract.FuncSpe
 	default:
 		var tu VTuple
 		for i := 0; i < nres; i++ {
-			v := freshVal(fmt.Sprintf("ret%d.%s", i, short(site)), sig.Results().At(i).Type())
-			x.assumeTyped(st, v, sig.Results().At(i).Type())
+			var v Val
+			rt := sig.Results().At(i).Type()
+			if fr := spec.Attrs[fmt.Sprintf("fresh_result%d", i)]; fr != "" && x.Mode == ModeUnwind {
+				v = x.freshSliceResult(st, env, fr, rt, site)
+			} else if x.Mode == ModeUnwind {
+				// defining postcondition `ensures result<i> == E`
+				for _, e := range spec.Ensures {
+					b, ok := e.E.(*contract.Binary)
+					if !ok || b.Op != "==" {
+						continue
+					}
+					id, ok := b.X.(*contract.Ident)
+					if !ok || id.Name != fmt.Sprintf("result%d", i) || mentions(b.Y, "result") {
+						continue
+					}
+					if _, isNil := b.Y.(*contract.Ident); isNil && b.Y.(*contract.Ident).Name == "nil" {
+						v = zeroVal(rt)
+					}
+				}
+			}
+			if v == nil {
+				v = freshVal(fmt.Sprintf("ret%d.%s", i, short(site)), rt)
+				x.assumeTyped(st, v, rt)
+			}
 			tu = append(tu, v)
 			env.vars[fmt.Sprintf("result%d", i)] = v
 			if n := sig.Results().At(i).Name(); n != "" && n != "_" {
